@@ -78,9 +78,30 @@ NEEDS = {
  "C19-m8": ("period in which at most half of the days have a temperature (50% rule ported to the aggregation)", None),
  "C20-m7": ("ignore_billing_period_gap_for_day_count=True and an empty selection (index[0] instead of index.min())", None),
  "C20-m8": ("allow_billing_period_overshoot=True and an empty pre-end selection (handler narrowed to KeyError)", None),
+ # wave 6
+ "C02-m9": ("an already disqualified data object and a poor fit: non-empty lists handed over by reference (`or []`)", None),
+ "C02-m10": ("a model read from a legacy (2.0) document predicting reporting sets of different zones (timezone None, set by the first predict)", "legacy20/history"),
+ "C04-m9": ("second-generation storage, or two objects read from one dict (from_dict pops the disqualifications out of the stored info)", None),
+ "C04-m10": ("poor fit: fit() returns None (guard clause lost the final return)", None),
+ "C05-m9": ("one hourly model object predicts a short period, then a long one (cluster table of the short period stored back)", "hourly-history/state"),
+ "C05-m10": ("hourly frame in which a row lacks both its temperature and its usage reading (such rows dropped when a usage column is present)", "usage missing on the temperature-less row of dataclass/daily/elec"),
+ "C06-m9": ("microsecond/millisecond index and a repeated hour in the period (conversion through the wall clock)", "microsecond index; each hour keeps the weather supplied for it"),
+ "C06-m10": ("rows not in chronological order (span taken from the first and last ROW)", "late rows appended at the end"),
+ "C08-m9": ("timestamps handed over in a tz-aware 'datetime' column (to_datetime(..., utc=True))", "class-col"),
+ "C08-m10": ("electricity data with a negative (net-metered) reading (`<= 0` treated as missing)", "class-elec"),
+ "C09-m9": ("timestamps in a 'datetime' column, non-UTC zone (same edit as C08-m9)", "frame-col"),
+ "C09-m10": ("from_series with a NaN reading strictly inside the feed (dropna makes the feed irregular, gaps forward-filled)", None),
+ "C10-m9": ("a baseline of exactly 328 days (round(328.5) = 328)", None),
+ "C10-m10": ("irregular bills with a median length of exactly 35 days plus a 36-70 day bill (same edit as C08-m8)", "catalogue entry: irregular bills, median 35"),
+ "C12-m9": ("component with residuals without spread (reverts the NaN-safe floor of fix 3657560c)", None),
+ "C12-m10": ("smoothing fractions summing to >= 1 and an unlucky last-bit rounding (ordering guard of fix e702afae removed)", "rounding lemma (C11) also registered in C12"),
+ "C14-m9": ("a settings profile containing None values, stored through a fit (model_dump(exclude_none=True))", "stored settings through a fit for four profiles"),
+ "C14-m10": ("option lists of the calendar maps spelled with capitals / blanks (str_to_lower / strip removed from the config)", "option-list spellings in the constructor catalogue"),
+ "C16-m9": ("reporting period touching the same calendar month in two years (months counted per (year, month))", "reporting index 'two-januaries' + numeric replay of the uncertainty formula"),
+ "C16-m10": ("two model objects in one process (one error dict shared through a module constant)", "objects/*"),
 }
 rows = []
-for d in sorted(glob.glob(os.path.join(ROOT, "seeded", "C*-m[45678]"))):
+for d in sorted(glob.glob(os.path.join(ROOT, "seeded", "C*-m[4-9]")) + glob.glob(os.path.join(ROOT, "seeded", "C*-m10"))):
     sid = os.path.basename(d)
     if sid not in NEEDS:
         continue
